@@ -2,8 +2,8 @@
 from .. import lib, runner
 
 PROP = "C07"
-THEOREMS = ["Dec.wb_pattern_iff_window", "Dec.wb_pattern_small_window", "Dec.at_most_one_cyc", "Dec.request_forwarded", "Dec.responses_of_selected", "Dec.nobody_selected_silent"]
-IMPORTS = ["SocVerif.Props.C07"]
+THEOREMS = ["Dec.wb_pattern_iff_window", "Dec.wb_pattern_small_window", "Dec.at_most_one_cyc", "Dec.request_forwarded", "Dec.responses_of_selected", "Dec.nobody_selected_silent", "DecBook.addFixed_refused_unchanged", "DecBook.subs_are_accepted", "DecBook.addOrig_refused_clobbers"]
+IMPORTS = ["SocVerif.Props.C07", "SocVerif.Props.C06D"]
 
 
 def k1_probe(rep):
